@@ -3834,7 +3834,9 @@ PPL::Polyhedron::topological_closure_assign() {
     return;
   }
   // Any empty or zero-dimensional polyhedron is closed.
-  if (marked_empty() || space_dim == 0) {
+  // Note: DO check for emptiness here, as relaxing the strict inequalities
+  // of an unsatisfiable constraint system may make it satisfiable.
+  if (space_dim == 0 || is_empty()) {
     return;
   }
 
